@@ -90,9 +90,9 @@ type Inode struct {
 	Minor  uint32
 	NLink  int
 	names  []string // directory: entry names in creation order
-	kids   map[string]*Inode
+	kids   *simrt.PMap[string, *Inode]
 	xnames []string
-	xattrs map[string][]byte
+	xattrs simrt.PMap[string, []byte]
 	MTime  uint64
 	ATime  uint64
 	Gen    uint64
@@ -102,28 +102,28 @@ func (i *Inode) Child(name string) *Inode {
 	if i == nil || i.kids == nil {
 		return nil
 	}
-	return i.kids[name]
+	return i.kids.Get(name)
 }
 
-func (i *Inode) Names() []string { return append([]string(nil), i.names...) }
+func (i *Inode) Names() []string { return simrt.Clone(i.names) }
 
 func (i *Inode) link(name string, c *Inode) {
-	if _, ok := i.kids[name]; !ok {
-		i.names = append(i.names, name)
+	if !i.kids.Has(name) {
+		i.names = simrt.Push(i.names, name)
 	}
-	i.kids[name] = c
+	i.kids.Set(name, c)
 	c.NLink++
 }
 
 func (i *Inode) unlink(name string) {
-	c := i.kids[name]
+	c := i.kids.Get(name)
 	if c == nil {
 		return
 	}
-	delete(i.kids, name)
+	i.kids.Del(name)
 	for k, n := range i.names {
 		if n == name {
-			i.names = append(i.names[:k:k], i.names[k+1:]...)
+			i.names = simrt.RemoveAt(simrt.Clone(i.names), k)
 			break
 		}
 	}
@@ -283,7 +283,7 @@ func (h *Handle) resolve() *Inode {
 	if p == nil || p.Kind != Dir {
 		return nil
 	}
-	return p.kids[h.name]
+	return p.kids.Get(h.name)
 }
 
 // node is the object operations act on.
@@ -323,12 +323,12 @@ type FS struct {
 	OnExit  func(c *Call)
 
 	NCalls   int
-	ByMethod map[string]int
-	Overlaps map[string]int // pairs of methods observed active together (coverage)
+	ByMethod simrt.PMap[string, int]
+	Overlaps simrt.PMap[string, int] // pairs of methods observed active together (coverage)
 }
 
 func New() *FS {
-	fs := &FS{nextIno: 1, ByMethod: map[string]int{}, Overlaps: map[string]int{}, IoUnit: 0, KeepCalls: true}
+	fs := &FS{nextIno: 1, IoUnit: 0, KeepCalls: true}
 	fs.Root = fs.newInode(Dir, 0o755)
 	fs.Root.NLink = 1
 	return fs
@@ -338,7 +338,7 @@ func (fs *FS) newInode(k Kind, perm p9.FileMode) *Inode {
 	fs.nextIno++
 	i := &Inode{Ino: fs.nextIno, Kind: k, Perm: perm & 0o7777, MTime: 1000, ATime: 1000}
 	if k == Dir {
-		i.kids = map[string]*Inode{}
+		i.kids = &simrt.PMap[string, *Inode]{}
 	}
 	return i
 }
@@ -373,7 +373,7 @@ func (fs *FS) MkPath(p string) *Inode {
 				kind, name = Sock, part[1:]
 			}
 		}
-		c := cur.kids[name]
+		c := cur.kids.Get(name)
 		if c == nil {
 			c = fs.newInode(kind, 0o644)
 			if kind == Dir {
@@ -400,23 +400,23 @@ func (fs *FS) Lookup(p string) *Inode {
 		if cur == nil || cur.Kind != Dir {
 			return nil
 		}
-		cur = cur.kids[part]
+		cur = cur.kids.Get(part)
 	}
 	return cur
 }
 
 func (fs *FS) viol(prop, oracle, key, format string, args ...interface{}) {
 	v := Violation{Prop: prop, Oracle: oracle, Key: oracle + ":" + key, Detail: fmt.Sprintf(format, args...), Step: simrt.Steps()}
-	fs.Viol = append(fs.Viol, v)
+	fs.Viol = simrt.Push(fs.Viol, v)
 	simrt.Event("VIOLATION %s/%s: %s", prop, oracle, v.Detail)
 }
 
 func (fs *FS) newHandle(parent *Handle, name string, bound *Inode, by string) *Handle {
 	h := &Handle{ID: len(fs.Handles), fs: fs, parent: parent, name: name, bound: bound, CreatedBy: by}
 	if t := simrt.Current(); t != nil {
-		h.Conn = t.Local["inherit.conn"]
+		h.Conn = t.Local.Get("inherit.conn")
 	}
-	fs.Handles = append(fs.Handles, h)
+	fs.Handles = simrt.Push(fs.Handles, h)
 	return h
 }
 
@@ -496,15 +496,15 @@ func (fs *FS) call(h *Handle, method string) *Call {
 func (fs *FS) begin(c *Call) {
 	c.Seq = fs.NCalls
 	fs.NCalls++
-	fs.ByMethod[c.Method]++
+	fs.ByMethod.Set(c.Method, fs.ByMethod.Get(c.Method)+1)
 	c.Task = simrt.Current()
 	if c.Task != nil {
-		c.Req = c.Task.Local["req"]
-		c.Conn = c.Task.Local["inherit.conn"]
+		c.Req = c.Task.Local.Get("req")
+		c.Conn = c.Task.Local.Get("inherit.conn")
 	}
 	c.EnterAt = simrt.Steps()
 	if fs.KeepCalls {
-		fs.Calls = append(fs.Calls, c)
+		fs.Calls = simrt.Push(fs.Calls, c)
 	}
 	h := c.H
 	if h != nil {
@@ -555,14 +555,14 @@ func (fs *FS) begin(c *Call) {
 	if !fs.NoOverlapCheck {
 		for _, o := range fs.active {
 			key := o.Method + "|" + c.Method
-			fs.Overlaps[key]++
+			fs.Overlaps.Set(key, fs.Overlaps.Get(key)+1)
 			if Conflict(o, c) {
 				fs.viol("C07", "overlap", o.Method+"|"+c.Method, "%s entered while %s is running", c, o)
 			}
 		}
 	}
 	c.Active = true
-	fs.active = append(fs.active, c)
+	fs.active = simrt.Push(fs.active, c)
 	if simrt.Tracing() {
 		simrt.Event("fs enter %s", c)
 	}
@@ -595,7 +595,7 @@ func (fs *FS) finish(c *Call) {
 	c.ExitAt = simrt.Steps()
 	for i, o := range fs.active {
 		if o == c {
-			fs.active = append(fs.active[:i:i], fs.active[i+1:]...)
+			fs.active = simrt.RemoveAt(simrt.Clone(fs.active), i)
 			break
 		}
 	}
@@ -641,7 +641,7 @@ func (fs *FS) fault(c *Call) bool {
 }
 
 // ActiveCalls returns the calls currently between enter and exit.
-func (fs *FS) ActiveCalls() []*Call { return append([]*Call(nil), fs.active...) }
+func (fs *FS) ActiveCalls() []*Call { return simrt.Clone(fs.active) }
 
 // Release lets a held call continue.
 func (c *Call) Release() { c.Held = false }
@@ -715,7 +715,7 @@ func (h *Handle) walk(c *Call, names []string) (*Handle, error) {
 			// server must never ask for this (C09)
 			return nil, linux.ENOTDIR
 		}
-		next := cur.kids[n]
+		next := cur.kids.Get(n)
 		if next == nil {
 			return nil, linux.ENOENT
 		}
@@ -1022,7 +1022,7 @@ func (h *Handle) Create(name string, flags p9.OpenFlags, permissions p9.FileMode
 		c.Err = err
 		return nil, p9.QID{}, 0, err
 	}
-	if d.kids[name] != nil {
+	if d.kids.Get(name) != nil {
 		c.Err = linux.EEXIST
 		return nil, p9.QID{}, 0, c.Err
 	}
@@ -1043,7 +1043,7 @@ func (h *Handle) mk(c *Call, name string, k Kind, perm p9.FileMode, uid p9.UID, 
 	if err != nil {
 		return nil, err
 	}
-	if d.kids[name] != nil {
+	if d.kids.Get(name) != nil {
 		return nil, linux.EEXIST
 	}
 	simrt.Yield("fs.mk.mid")
@@ -1119,7 +1119,7 @@ func (h *Handle) Link(target p9.File, newName string) error {
 		c.Err = linux.EPERM
 		return c.Err
 	}
-	if d.kids[newName] != nil {
+	if d.kids.Get(newName) != nil {
 		c.Err = linux.EEXIST
 		return c.Err
 	}
@@ -1158,7 +1158,7 @@ func (h *Handle) Rename(newDir p9.File, newName string) error {
 
 // markGone flags every live handle that denotes dir/name (or something below it).
 func (fs *FS) markGone(dir *Inode, name string) {
-	victim := dir.kids[name]
+	victim := dir.kids.Get(name)
 	if victim == nil {
 		return
 	}
@@ -1208,7 +1208,7 @@ func (h *Handle) RenameAt(oldName string, newDir p9.File, newName string) error 
 		c.Err = linux.ENOTDIR
 		return c.Err
 	}
-	obj := src.kids[oldName]
+	obj := src.kids.Get(oldName)
 	if obj == nil {
 		c.Err = linux.ENOENT
 		return c.Err
@@ -1225,7 +1225,7 @@ func (h *Handle) RenameAt(oldName string, newDir p9.File, newName string) error 
 			}
 		}
 	}
-	if old := dst.kids[newName]; old != nil {
+	if old := dst.kids.Get(newName); old != nil {
 		if old.Kind == Dir && len(old.names) > 0 {
 			c.Err = linux.ENOTEMPTY
 			return c.Err
@@ -1271,7 +1271,7 @@ func (h *Handle) UnlinkAt(name string, flags uint32) error {
 		c.Err = err
 		return err
 	}
-	v := d.kids[name]
+	v := d.kids.Get(name)
 	if v == nil {
 		c.Err = linux.ENOENT
 		return c.Err
@@ -1312,7 +1312,7 @@ func (h *Handle) Readdir(offset uint64, count uint32) (p9.Dirents, error) {
 		if uint32(len(out)) >= count {
 			break
 		}
-		k := n.kids[n.names[i]]
+		k := n.kids.Get(n.names[i])
 		out = append(out, p9.Dirent{QID: fs.qid(k), Offset: uint64(i + 1), Type: k.Kind.Mode().QIDType(), Name: n.names[i]})
 	}
 	c.RDir = out
@@ -1371,10 +1371,7 @@ func (h *Handle) SetXattr(attr string, data []byte, flags p9.XattrFlags) error {
 		c.Err = linux.ENOENT
 		return c.Err
 	}
-	if n.xattrs == nil {
-		n.xattrs = map[string][]byte{}
-	}
-	_, exists := n.xattrs[attr]
+	exists := n.xattrs.Has(attr)
 	if flags == p9.XattrCreate && exists {
 		c.Err = linux.EEXIST
 		return c.Err
@@ -1384,9 +1381,9 @@ func (h *Handle) SetXattr(attr string, data []byte, flags p9.XattrFlags) error {
 		return c.Err
 	}
 	if !exists {
-		n.xnames = append(n.xnames, attr)
+		n.xnames = simrt.Push(n.xnames, attr)
 	}
-	n.xattrs[attr] = append([]byte{}, data...)
+	n.xattrs.Set(attr, append([]byte{}, data...))
 	return nil
 }
 
@@ -1404,7 +1401,7 @@ func (h *Handle) GetXattr(attr string) ([]byte, error) {
 		c.Err = linux.ENOENT
 		return nil, c.Err
 	}
-	v, ok := n.xattrs[attr]
+	v, ok := n.xattrs.Get2(attr)
 	if !ok {
 		c.Err = linux.ENODATA
 		return nil, c.Err
@@ -1444,14 +1441,14 @@ func (h *Handle) RemoveXattr(attr string) error {
 		c.Err = linux.ENOENT
 		return c.Err
 	}
-	if _, ok := n.xattrs[attr]; !ok {
+	if !n.xattrs.Has(attr) {
 		c.Err = linux.ENODATA
 		return c.Err
 	}
-	delete(n.xattrs, attr)
+	n.xattrs.Del(attr)
 	for i, x := range n.xnames {
 		if x == attr {
-			n.xnames = append(n.xnames[:i:i], n.xnames[i+1:]...)
+			n.xnames = simrt.RemoveAt(simrt.Clone(n.xnames), i)
 			break
 		}
 	}
@@ -1460,13 +1457,10 @@ func (h *Handle) RemoveXattr(attr string) error {
 
 // SetXattrDirect installs an xattr without going through the call log.
 func (i *Inode) SetXattrDirect(name string, v []byte) {
-	if i.xattrs == nil {
-		i.xattrs = map[string][]byte{}
-	}
-	if _, ok := i.xattrs[name]; !ok {
+	if !i.xattrs.Has(name) {
 		i.xnames = append(i.xnames, name)
 	}
-	i.xattrs[name] = v
+	i.xattrs.Set(name, v)
 }
 
 // LifecycleReport checks, at the end of a run, that every handle was closed
@@ -1525,7 +1519,7 @@ func (fs *FS) Dump() string {
 			names := append([]string{}, n.names...)
 			sort.Strings(names)
 			for _, c := range names {
-				rec(p+"/"+c, n.kids[c])
+				rec(p+"/"+c, n.kids.Get(c))
 			}
 		}
 	}
